@@ -46,7 +46,7 @@ var propMix = map[string][]mixEntry{
 	"C08": {{"reward", "", 5}, {"mixed", "", 2}, {"long", "", 1}},
 	"C09": {{"authz", "", 6}, {"mixed", "", 2}},
 	"C10": {{"authz", "", 6}, {"mixed", "", 2}},
-	"C11": {{"long", "", 1}},
+	"C11": {{"long", "", 3}, {"longer", "", 1}},
 	"C12": {{"timeout", "", 6}, {"mixed", "", 2}},
 	"C13": {{"mixed", "", 6}, {"timeout", "", 2}, {"long", "", 1}},
 	"C14": {{"mixed", "", 6}, {"timeout", "", 2}, {"long", "", 1}},
@@ -210,6 +210,9 @@ func cmdCheck(args []string) {
 		if tier == "thorough" && m.Profile == "long" && i%3 == 1 {
 			m.Profile = "longer"
 		}
+		if tier == "thorough" && m.Profile == "longer" && i%2 == 0 {
+			m.Profile = "longest"
+		}
 		return RunSpec{Index: i, Seed: runSeed(base, i), Profile: m.Profile, Prop: prop, Mode: m.Mode, Fuel: 5_000_000, Stop: true, Thorough: tier == "thorough"}
 	}
 	stop := false
@@ -244,7 +247,7 @@ func cmdCheck(args []string) {
 				}
 				sp := specFor(next)
 				next++
-				if left := time.Until(deadline); left < 40*time.Second && getProfile(sp.Profile).Long {
+				if left := time.Until(deadline); (left < 40*time.Second && getProfile(sp.Profile).Long) || (left < 75*time.Second && sp.Profile == "longer") {
 					if allLong {
 						mu.Lock()
 						stop = true
